@@ -220,10 +220,10 @@ theorem scanAll_total (text : Bytes) (lf : Nat) (hlf : text.length < lf) (e : Ex
   | zero => intro acc pos line col _ h; omega
   | succ f ih =>
     intro acc pos line col hpos hf
-    unfold scanAll
+    unfold scanAll scanAllWith
     obtain ⟨s, hs, hgood⟩ := attempt_total text lf hlf e hcf pos line col (Nat.le_of_lt hpos)
-    have hstep : scanAll.step1 text lf e f acc pos line col ≠ none := by
-      unfold scanAll.step1
+    have hstep : scanAllWith.step1 text (attempt text lf e) f acc pos line col ≠ none := by
+      unfold scanAllWith.step1
       split
       · split
         · simp
